@@ -279,6 +279,39 @@ class Cond:
                         return self._mk(("val", x[1]), (want_eq, frozenset([v])))
                     if y[0] == "const" and x[0] == "place" and isinstance(y[1], int):
                         return self._mk(("val", x[1]), (want_eq, frozenset([y[1]])))
+            # `opt.map_or(false, |x| p(x))` / `opt.is_some_and(|x| p(x))` holds  =>  opt is Some and p(payload) holds
+            if short in ("map_or", "is_some_and") and b and ((short == "map_or" and len(args) == 3 and args[1][0] == "const" and args[1][1] in (0, False)) or (short == "is_some_and" and len(args) == 2)):
+                clo = _unref(args[-1])
+                optp = _unref(args[0])
+                cl = prog.by_norm.get(clo[2]) if clo[0] == "agg" and clo[1] == "closure" else None
+                if cl is not None and optp[0] == "place":
+                    ebc = ExprBuilder(prog, cl)
+                    rets = [ebc._def_expr(d_, 0, (0,)) for d_ in cl.defs(0) if d_[0] in ("assign", "call")]
+                    params = [vn for vn, l_, pj in cl.var_places if not pj and 2 <= l_ <= cl.arg_count]
+                    if len(rets) == 1 and rets[0][0] == "call" and len(params) == 1:
+                        body = rets[0]
+                        sub = "%s@Some.0" % optp[1]
+                        nm2 = callee_name(body) or ""
+                        # captured places are spelled `self__field` inside the closure: put the captured expression back
+                        caps = {}
+                        for vn, l_, pj in cl.var_places:
+                            if l_ == 1 and pj:
+                                fi = [p_.get("idx") for p_ in pj if p_.get("k") == "field"]
+                                if fi and fi[0] is not None and fi[0] < len(clo[5]):
+                                    caps[vn] = expr_str(_unref(clo[5][fi[0]]))
+
+                        def back(txt):
+                            txt = re.sub(r"(?<![\w.])%s(?![\w])" % re.escape(params[0]), sub, txt)
+                            for vn, ce_ in caps.items():
+                                txt = re.sub(r"(?<![\w.])%s(?![\w])" % re.escape(vn), ce_, txt)
+                            return txt
+
+                        args2 = tuple(back(expr_str(a_)) for a_ in body[3])
+                        reads = set(self._call_reads(nm2, body[3])) | {optp[1]}
+                        reads = tuple(sorted({back(r_) for r_ in reads if r_ != params[0]}))
+                        out_ = self._mk(("val", optp[1]), (True, frozenset(["Some"]))) + self._mk(("call", nm2, args2, reads), BOOL_TRUE)
+                        if out_:
+                            return out_
             # local straight-line predicate (e.g. `eof_received`): use its body when
             # the body is itself understood as a constraint on places
             inl = prog.inline_getter(e, "full")
